@@ -150,7 +150,7 @@ SerdeRel(op, a, r) ==
 \* Integer projections of floating-point results (computed by the recorder in f64 from the native values).
 \* The model knows the exact rational inputs, so it knows which side of each threshold they are on.
 IsIntTup(x, n) == x.t = "Tup" /\ Len(x.c) = n
-ProjOps == {"slerp_proj", "nlerp_proj", "unit_roundtrip", "normalize_native", "turn_div_exact", "full_turn_value", "euler_proj"}
+ProjOps == {"slerp_proj", "nlerp_proj", "slerp_axis_proj", "unit_roundtrip", "normalize_native", "turn_div_exact", "full_turn_value", "euler_proj"}
 ProjRel(op, k, a, r) ==
   LET wide == k = "f32" IN
   CASE op \in {"slerp_proj", "nlerp_proj"} ->
@@ -162,6 +162,10 @@ ProjRel(op, k, a, r) ==
                LET d == RAbs(Dot(a[1].c, a[2].c)) IN
                IF RLe(d, <<9995, 10000>>) THEN r.c[2].c[1] <= (IF wide THEN 5000 ELSE 50)          \* exactly, up to rounding
                ELSE r.c[2].c[1] <= (IF wide THEN 15000 ELSE 10000))                                \* within 1e-5 rad
+    \* a basis quaternion and its half turn about a coordinate axis, built natively: a.b is a rounding residue whose sign the
+    \* recorder knows exactly; the arc is a quarter of the 3-sphere's great circle, far from the hand-over, so speed is exact
+    [] op = "slerp_axis_proj" -> /\ IsIntTup(r, 4) /\ r.c[1].c[1] <= 8 /\ r.c[4].c[1] = TRUE
+                                 /\ r.c[2].c[1] <= (IF wide THEN 5000 ELSE 50)
     [] op = "unit_roundtrip" -> r.t = "I" /\ r.c[1] <= 4       \* relative error at most 4 machine epsilons   (C13)
     [] op = "normalize_native" -> /\ IsIntTup(r, 4) /\ r.c[1].c[1] = TRUE /\ r.c[2].c[1] = TRUE
                                   /\ r.c[3].c[1] <= (IF wide THEN 20000 ELSE 10) /\ r.c[4].c[1] <= (IF wide THEN 20000 ELSE 10)
